@@ -39,7 +39,8 @@ ASSUMPTIONS = [
 MIN_NONTRIVIAL = {'quick': 1000, 'thorough': 30000}
 REQUIRED_MONITORS = ['battery', 'baseline', 'baseline:other-order', 'baseline:other-hashseed', 'shadow-cache:compare',
                      'shadow-cache:stored', 'fresh-object', 'state-audit',
-                     'object-reuse']
+                     'object-reuse', 'object-reuse:dry-run-between',
+                     'trs-from-trs-object']
 SHARD_TIMEOUT = {'quick': 600, 'thorough': 5400}
 
 PROBE_PLSS = [
@@ -310,7 +311,7 @@ def audit_state(pytrs):
 OPS = ['parse', 'parse-probe-other-cfg', 'master', 'master-toggle-restore',
        'clear', 'usecache', 'warm', 'mutate', 'keep', 'churn', 'mutate-trs',
        'shared-config-with-keywords', 'api-variants',
-       'clear-then-warm-variants', 'object-reuse']
+       'clear-then-warm-variants', 'object-reuse', 'trs-from-trs-object']
 
 
 def do_step(op, rng, pytrs, kept, ctx, case):
@@ -487,9 +488,23 @@ def do_step(op, rng, pytrs, kept, ctx, case):
                                    ('default_ns', ['s'])):
                     if rng.random() < 0.25:
                         kw[name] = rng.choice(vals)
+            if rng.random() < 0.5:
+                # a what-if run with other settings in between: it is not
+                # committed and leaves no trace in what follows
+                ctx.hit('object-reuse:dry-run-between')
+                dry = rng.choice([{'qq_depth': 1}, {'qq_depth_min': 3},
+                                  {'suppress_lot_divs': True},
+                                  {'clean_qq': True}, {'break_halves': True}])
+                for t in (obj.tracts if plss else [obj]):
+                    t.parse(commit=False, **dry)
             obj.parse(**kw)
             fresh = make()
             fresh.parse(**kw)
+            if plss and rng.random() < 0.5:
+                for t in obj.tracts:
+                    t.parse(commit=False, qq_depth=rng.choice([1, 3]))
+                obj.parse_tracts()
+                fresh.parse_tracts()
             ctx.hit('object-reuse')
             a, b = snap(obj), snap(fresh)
             if a != b:
@@ -501,6 +516,24 @@ def do_step(op, rng, pytrs, kept, ctx, case):
                     f"{c0!r}) gives {short(repr(x), 200)}, a fresh object "
                     f"gives {short(repr(y), 200)}",
                     dedup=f"reuse|{plss}")
+                break
+    elif op == 'trs-from-trs-object':
+        # A TRS built from another TRS object takes that object's current
+        # Twp/Rge/Sec -- whatever the object held (and was looked up under)
+        # before.
+        for i in range(120):
+            a = TRS(f"{i + 1}n{i + 2}w{i % 36 + 1:02d}")
+            TRS(a)
+            new = f"{i + 3}s{i + 1}e{i % 30 + 1:02d}"
+            a.trs = new
+            ctx.hit('trs-from-trs-object')
+            got = TRS(a).trs
+            if got != new:
+                ctx.violation(
+                    'result-depends-on-history', case,
+                    f"a = TRS({f'{i + 1}n{i + 2}w{i % 36 + 1:02d}'!r}); "
+                    f"TRS(a); a.trs = {new!r}; TRS(a).trs == {got!r}",
+                    dedup='trs-from-trs-object')
                 break
     elif op == 'api-variants':
         for txt in ("TlS4N-RIOOW Sec 14: NE/4", "T154-R97 Sec 1"):
